@@ -280,7 +280,13 @@ class C14(Prop):
             t = arg[1]
             cols = etl.columns(L(t))
             got = list(etl.fromcolumns(list(cols.values()), header=list(cols.keys())))
-            return codec.t_bool([tuple(r) for r in got] == [tuple(r) for r in t])
+            ok = [tuple(r) for r in got] == [tuple(r) for r in t]
+            # field names that are not text: columns() files every cell under the field's text name, none is lost
+            t2 = [[i if i % 2 == 0 else None if i == 1 else f for i, f in enumerate(t[0])]] + [list(r) for r in t[1:]]
+            cols2 = etl.columns(t2)
+            ok = ok and list(cols2.keys()) == [str(f) for f in t2[0]] and \
+                [list(c) for c in cols2.values()] == [[r[i] for r in t[1:]] for i in range(len(t[0]))]
+            return codec.t_bool(ok)
         raise ValueError(kind)
 
     def expand(self, case):
